@@ -172,6 +172,129 @@ def _worker(a):
     return out, stats
 
 
+FAULT_MODES = ["eintr", "eio", "eof", "rd", "stale", "stalei"]
+
+
+def fault_worker(a):
+    """The file is fine but reading it misbehaves once (h_conf FLOAD: a read cut short by a signal, an I/O error part-way, the
+    file shorter than fstat said, a short read(2) followed by EINTR, a stale errno when the load starts).  Whatever the reader
+    does about it, the load terminates and either reports an error - then nothing changed and nobody was notified - or
+    succeeds - then the tree is the one the WHOLE file describes (the reference: the same file loaded without a fault).
+    Returns findings tagged with the rule, so that C14 judges termination / atomicity and C15 / C16 the successful loads."""
+    exe, seed, nfiles = a
+    rng = random.Random("fault/%d" % seed)
+    priors = prior_configs(random.Random(0))
+    files = valid_files(rng, nfiles * 2)[:nfiles]
+    # files in which a cut leaves a VALID shorter file (whole entries per line): a cut read that is taken for the whole file parses
+    big = b"".join(b'k%d "v%d";\n' % (i, i) for i in range(40)) + b'alpha { s "late"; l ("m", "n"); };\nbeta { t "3m"; };\n'
+    files += [big, b'alpha { s "one"; };\n', b'loose "x";\n' * 3]
+    b = hconf.Batch(exe, leaks=False, timeout_case=6)
+    meta = {}
+    try:
+        prior_paths = [b.add_file(p[0]) if p[0] is not None else None for p in priors]
+        paths = [b.add_file(f) for f in files]
+        pempty = b.add_file(b"")
+        k = 0
+        for fi, data in enumerate(files):
+            for pi in (k % len(priors), (k + 3) % len(priors)):
+                fileA, before, after = priors[pi]
+                pre = list(before) + (["LOAD " + confgen.pct(prior_paths[pi])] if prior_paths[pi] else []) + list(after)
+                b.case("fref%d_%d" % (fi, pi), pre + ["LOAD " + confgen.pct(paths[fi]), "DUMP"])
+                cuts = sorted(set([0, 1, len(data) // 2, len(data) - 1] + [data.find(b"\n", rng.randrange(len(data))) + 1 for _ in range(3)]))
+                for mode in FAULT_MODES:
+                    for at in (cuts if not mode.startswith("stale") else [0]):
+                        if at < 0 or at >= len(data):
+                            continue
+                        tag = "fl%d_%d_%s_%d" % (fi, pi, mode, at)
+                        b.case(tag, pre + ["HOOKS", "SNAP", "FLOAD %s %d %s" % (mode, at, confgen.pct(paths[fi])), "SAME", "HOOKS", "DUMP"])
+                        meta[tag] = (fi, pi, mode, at)
+                k += 1
+        # the empty file (what is there for an instant while a file is rewritten in place) with every stale errno
+        for pi in range(len(priors)):
+            fileA, before, after = priors[pi]
+            pre = list(before) + (["LOAD " + confgen.pct(prior_paths[pi])] if prior_paths[pi] else []) + list(after)
+            for mode in ("stale", "stalei"):
+                tag = "fe%d_%s" % (pi, mode)
+                b.case(tag, pre + ["HOOKS", "SNAP", "FLOAD %s 0 %s" % (mode, confgen.pct(pempty)), "SAME", "HOOKS", "DUMP"])
+                meta[tag] = (None, pi, mode, 0)
+        recs, r = b.run()
+    finally:
+        b.cleanup()
+    out = []
+    stats = {"fault_cases": 0, "faults_fired": 0, "fault_loads_reported_error": 0, "fault_loads_succeeded": 0, "fault_success_compared_with_whole_file": 0}
+    refs = {}
+    for rec in recs:
+        if rec.name.startswith("fref") and rec.status == "exit=0" and rec.dumps and rec.loads and rec.loads[-1] == 0:
+            refs[rec.name[4:]] = rec.dumps[-1]
+    seen = set()
+    for rec in recs:
+        if rec.name not in meta:
+            continue
+        seen.add(rec.name)
+        fi, pi, mode, at = meta[rec.name]
+        data = files[fi] if fi is not None else b""
+        wit = {"fault": mode, "at": at, "prior": pi, "file": data.decode("latin-1"), "case": rec.name, "fault_case": True}
+        stats["fault_cases"] += 1
+        if rec.status == "timeout":
+            out.append(("fault-hang", "fault-hang:" + mode, "loading a %d-byte file with the read misbehaving (%s at byte %d) did not return within 6 s on prior #%d" % (
+                len(data), mode, at, pi), wit))
+            continue
+        crash = hconf.case_crash_events(rec)
+        if crash:
+            for kind, func in crash:
+                txt = [s_["text"] for s_ in rec.sanitizer if s_["kind"] == kind]
+                out.append(("crash", "%s|%s" % (kind, func), "read fault %s at byte %d while loading %r: %s in %s\n%s" % (mode, at, wit["file"][:200], kind, func, (txt[0] if txt else "")[:1500]), wit))
+            continue
+        fired = [int(l.split("=")[1]) for l in rec.other if l.startswith("FAULT fired=")]
+        if not rec.loads or not fired or not rec.dumps:
+            out.append(("harness", "harness", "fault case %s incomplete: loads %s other %s" % (rec.name, rec.loads, rec.other[:3]), wit))
+            continue
+        stats["faults_fired"] += 1 if fired[-1] else 0
+        rc = rec.loads[-1]
+        if rc != 0:
+            stats["fault_loads_reported_error"] += 1
+            same = rec.same[0] if rec.same else None
+            if same is None or not same[0]:
+                before_, after_ = (same[1], same[2]) if same else ([], [])
+                diff = [l for l in after_ if l not in before_][:4] + ["--- before only:"] + [l for l in before_ if l not in after_][:4]
+                out.append(("atomicity-dump", "fault-atomicity-dump:" + mode, "conf_read failed (rc=%d, read fault %s at byte %d) but the live tree changed on prior #%d:\n%s" % (
+                    rc, mode, at, pi, "\n".join(diff)), wit))
+            hooks = rec.hooks[-1] if len(rec.hooks) >= 2 else []
+            if hooks:
+                out.append(("atomicity-hook", "fault-atomicity-hook:" + mode, "conf_read failed (rc=%d, read fault %s at byte %d) but hooks ran: %s" % (rc, mode, at, hooks[:4]), wit))
+        else:
+            stats["fault_loads_succeeded"] += 1
+            if fi is None:
+                ref = None
+            else:
+                ref = refs.get("%d_%d" % (fi, pi))
+            if fi is not None and ref is None:
+                out.append(("harness", "harness", "no reference for %s" % rec.name, wit))
+                continue
+            stats["fault_success_compared_with_whole_file"] += 1
+            got = rec.dumps[-1]
+            if ref is not None and got != ref:
+                diff = [l for l in got if l not in ref][:5] + ["--- only when the whole file is read:"] + [l for l in ref if l not in got][:5]
+                out.append(("fault-wrong-tree", "fault-wrong-tree:" + mode, "the load succeeded although the read misbehaved (%s at byte %d of %d), and the tree is not the one the file "
+                            "describes (prior #%d):\n%s" % (mode, at, len(data), pi, "\n".join(diff)), wit))
+    for tag in meta:
+        if tag not in seen:
+            out.append(("harness", "harness", "fault case %s lost" % tag, {}))
+    return out, stats
+
+
+def fold_faults(chk, prop, res, rules):
+    for out, stats in res:
+        chk.merge_counts(stats)
+        for rule, sig, text, wit in out[:6]:
+            if rule == "harness":
+                chk.inconc(text)
+            elif rule in rules:
+                chk.violation(Violation(prop, rule, sig, text, wit))
+            else:
+                chk.count("fault_findings_judged_by_another_check")
+
+
 def run(chk, tier, scale=1.0):
     exe = hconf.build_exe("c14-" + tier)
     rng = random.Random(chk.seed)
@@ -249,6 +372,10 @@ def run(chk, tier, scale=1.0):
                 chk.inconc(text)
             else:
                 chk.violation(Violation("C14", rule, sig, text, wit))
+    # the file is fine, reading it is not
+    fres = vcommon.pmap(fault_worker, [(exe, chk.seed * 31 + k, 4) for k in range(4 if tier == "quick" else 48)])
+    fold_faults(chk, "C14", fres, ("fault-hang", "crash", "atomicity-dump", "atomicity-hook"))
+    chk.require("faults_fired", 100)
     distinct = set()
     for tag, pi, data in cases:
         hsh = vcommon.h([pi, data.decode("latin-1") if isinstance(data, bytes) else data])
@@ -272,6 +399,16 @@ def run(chk, tier, scale=1.0):
 def replay(chk, rep):
     exe = hconf.build_exe("c14-replay")
     w = rep["witness"]
+    if w.get("fault_case"):
+        # the fault cases are generated from the seed: the batch that held the case is run again
+        out = []
+        for k in range(48):
+            o, st = fault_worker((exe, chk.seed * 31 + k, 4))
+            out += [x for x in o if x[3].get("fault") == w["fault"]]
+            if out:
+                break
+        print(out[:3])
+        return 1 if [o for o in out if o[0] != "harness"] else 0
     data = w["file"].encode("latin-1") if w["file"] not in ("missing", "directory") else w["file"]
     out, stats = _worker((exe, [("replay", w["prior"], data)]))
     print(out, stats)
